@@ -383,6 +383,7 @@ pub fn property() -> Property {
         rule: "format in {B8G8R8A8, BC1, BC3, BC5}; width, height 1..64 (512 thorough) including non-multiples of 4; depth 1..8 (height rounded to a multiple of 4 when depth > 1); arbitrary attribute flags, mip field, LOD / surface offsets, 0..200 trailing bytes; random payload with endpoint ties / orderings forced on a random fraction of the blocks. Sweep part: for BC1/BC3/BC5 x 6 endpoint pairs x 3 orderings (>, =, <) x 16 pixel positions x every selector value (4 colour / 8 alpha). Oracle: own per-pixel evaluation from the format definition: BGRA->RGBA; RGB565 endpoints by bit replication (exact); interpolated entries accepted in [floor, ceil] of the exact rational (2a+b)/3, (a+b)/2, ((8-k)a+(k-1)b)/7, ((6-k)a+(k-1)b)/5; BC1 black entry RGB = 0 with unconstrained alpha; BC3 = alpha block over BC1 colour; BC5 = R, G from the two blocks, B = 0, A = 255; rgba.len() = 4wh d; 3-D iff attribute bit 0x1000000. Non-trivial: BCn image with a partial edge block, or depth > 1; distinct by hash of the file.",
         assumptions: &["exact rounding of interpolants is not asserted (interval of both conventions)", "BC3 colour selectors 2/3 when c0 <= c1 are not asserted", "oracle validated on hand-computed blocks at start-up"],
         pre: Some(pre),
+        post: None,
         parts: vec![
             Box::new(Part { name: "selector-sweep", driver: Driver::Enum(sweep_cases), prop: prop_sweep, exhaustive: true }),
             Box::new(Part { name: "textures", driver: Driver::Gen(strategy, 3_000, 30_000), prop, exhaustive: false }),
